@@ -105,6 +105,8 @@ impl EmailNotificationService {
 #[async_trait::async_trait]
 impl NotificationService for EmailNotificationService {
     async fn notify_payment_failed(&self, req: NotifyPaymentFailedRequest) {
+        #[cfg(breez_trampoline_verif)]
+        crate::verif::seam::observe_notification(&req);
         let config = match &self.config {
             Some(config) => config,
             None => return,
